@@ -347,6 +347,25 @@ impl Prop for C01 {
     }
     fn random(&self, _env: &Env, bytes: &[u8], st: &mut Stats) -> Result<(), Fail> {
         let mut s = Src::new(bytes);
+        if s.chance(1, 200) {
+            // many ids (beyond the usual 1-6): the key set must still be exact
+            let n = s.range(7, 70);
+            let files: Vec<(String, String)> = (0..n)
+                .map(|i| {
+                    let t = match s.below(4) {
+                        0 => format!("package p{i}; interface I{i} {{ void f(); }}"),
+                        1 => format!("package p; parcelable P{i} {{ int x; }}"),
+                        2 => format!("package p; import p.P{}; enum E{i} {{ A }}", i / 2),
+                        _ => "package a; interface {".to_owned(),
+                    };
+                    (format!("id{i}"), t)
+                })
+                .collect();
+            st.eval();
+            st.class("many-files");
+            st.nontrivial(format!("many{n}").as_bytes());
+            return check_files(&files).map_err(|e| Fail::new(e, bytes_case(bytes, json!({"files": files_json(&files)}))));
+        }
         let nfiles = 1 + s.weighted(&[12, 3, 2, 1, 1, 1]);
         let mut files = Vec::new();
         let mut fams = Vec::new();
